@@ -293,6 +293,34 @@ def shard_gaps_and_growth(args):
                     acc.case(True, key=("gaps", nwords, pattern, wordlen, columns), sample=case)
                     acc.transitions += 1
                     check(acc, f, fc, columns, case)
+    # (a2) words much longer than a line containing zero-width joiners / variation selectors / combining marks / wide characters: with
+    # every limit 1..13 each of them falls on every kind of cut offset (linesplit counts characters, whatever they are)
+    for wi, word in enumerate(("ab\u200dcd\ufe0fe\ufe0ef" * 9, "\u200d" + "xy\u200d" * 30, "a\ufe0f" * 40, "\U0001f468\u200d\U0001f469\u200d\U0001f467" * 12, "e\u0301\u0300" * 30, "Ｅ漢" * 35)):
+        k += 1
+        if k % 4 != idx:
+            continue
+        for lead in ("", "w ", "two words "):
+            for nruns in (1, 7):
+                text = lead + word + " end"
+                step_ = max(1, len(text) // nruns)
+                spec = tuple((text[j : j + step_], (A, B, ())[(j // step_) % 3]) for j in range(0, len(text), step_))
+                f = C.build(spec)
+                fc = C.cells(f)
+                for columns in range(1, 14):
+                    case = {"long_word": {"kind": wi, "characters": len(word), "lead": lead, "runs": len(spec)}, "columns": columns}
+                    acc.case(True, key=("zw", wi, lead, nruns, columns), sample=case)
+                    acc.transitions += 1
+                    check(acc, f, fc, columns, case)
+    # equal-but-distinguishable attribute values on two gaps of one text (False / 0, 31 / 31.0), in both orders
+    for g1, g2 in (((("bold", False),), (("bold", 0),)), ((("bold", 0),), (("bold", False),)), ((("fg", 31),), (("fg", 31.0),)), ((("fg", 31.0),), (("fg", 31),)), ((("underline", True),), (("underline", 1),))):
+        spec = (("aa", ()), (" ", g1), ("bb", ()), (" ", g2), ("cc", ()), ("  ", g1), ("dd", ()))
+        f = C.build(spec)
+        fc = C.cells(f)
+        for columns in (5, 8, 20):
+            case = {"f": C.show_spec(spec), "columns": columns, "gap_values": [repr(dict(g1)), repr(dict(g2))]}
+            acc.case(True, key=("gaptwin", repr(g1), repr(g2), columns), sample=case)
+            acc.transitions += 1
+            check(acc, f, fc, columns, case)
     # (b) growing log
     for base_len in (40, 650, 1500):
         for shape in ("words", "one", "runs7"):
